@@ -54,7 +54,8 @@ def make_recipe(rng, tier, which=None):
     if rng.random() < 0.08:
         n = m + int(rng.integers(0, 2))
     kind = ["spikes", "collective", "noise", "small_alphabet", "mean_changes", "weak_changes",
-            "dyadic", "heavy", "collective", "spikes", "nested", "nested", "nested"][int(rng.integers(13))]
+            "dyadic", "heavy", "collective", "spikes", "nested", "nested", "nested", "flat", "steps"][
+        int(rng.integers(15))]
     X, _ = gen_data(rng, n, p, kind)
     if spec["kw"]["collective_saving"] and spec["kw"]["collective_saving"]["cls"] == "GaussianVarCost" \
             and kind in ("small_alphabet", "dyadic"):
